@@ -34,10 +34,12 @@ InterpVerdict(r) ==
      ELSE IF \E p \in 1..n : ~Eq(r.out[p], want[p]) THEN "maskinterp: masked sample is not the specified interpolation"
      ELSE ""
 
+(* r.fillopen: integer-typed flux with method "mean" - the result keeps the flux type, so the fill value is not the   *)
+(* exact mean; the statement fixes only WHERE flux changes, which is still judged                                      *)
 AesVerdict(r) ==
   IF Len(r.out) # Len(r.flux) THEN "aesthetics: shape"
   ELSE IF \E p \in Idx(r.flux) : r.ivar[p] # 0 /\ r.out[p] # r.flux[p] THEN "aesthetics: flux changed where invvar is nonzero"
-  ELSE IF ~AesOK(r.flux, r.ivar, r.method, r.out) THEN "aesthetics: fill value"
+  ELSE IF ~r.fillopen /\ ~AesOK(r.flux, r.ivar, r.method, r.out) THEN "aesthetics: fill value"
   ELSE ""
 
 MedVerdict(r) == IF r.out = ReflectMedian(r.a, r.w) THEN "" ELSE "median: not the reflecting running median"
